@@ -1106,6 +1106,28 @@ def rule_loopify(toks: List[Tok], items: List[Tuple[str, int, str]], rep: Report
                    Tok("punct", "{", first.pos, " "), syn(f"let {x} = it_s__{tag}[it_s__{tag}.len() - 1 - {idx}];", first.pos, " "), _stop(syn(f"it_o__{tag}.push(", first.pos, " "))] + body + \
                   [syn(f"); {idx} += 1;", toks[hi].pos, " "), Tok("punct", "}", toks[hi].pos, " "), syn(f"it_o__{tag} " + "}", toks[hi].pos, " ")]
             rep.rule("R17 vec.into_iter().rev().map(closure).collect() -> index loop (elements are Copy: checked by rustc in the generated unit)")
+        elif names[-4:] == ["iter", "skip", "map", "collect"]:
+            # R30  S.iter().skip(N).map(|&v| E).collect()  ->  push E for v = S[i], i = N, N+1, ... while i < len (nothing when N >= len)
+            ci = len(calls) - 4
+            recv = recv_upto(ci)
+            n_toks = toks[calls[ci + 1][1] + 1:match_close(toks, calls[ci + 1][1])]
+            cp = _closure_parts(toks, calls[ci + 2][1])
+            if cp is None or not re.fullmatch(r"&?\w+", cp[0]):
+                raise Undecided(f"R30: unsupported closure in {fn}")
+            x, body = cp
+            if any(t.kind == "ident" and t.text in ("return", "break", "continue") for t in body) or any(is_p(t, "?") for t in body):
+                raise Undecided(f"R30: closure of .map( in {fn} contains control flow")
+            rt = render(recv).strip()
+            nt = render(n_toks).strip()
+            bind = f"let {x[1:]} = it_s__{tag}[{idx}];" if x.startswith("&") else f"let {x} = &it_s__{tag}[{idx}];"
+            body = list(body)
+            body[0] = Tok(body[0].kind, body[0].text, body[0].pos, " ")
+            ty_ann = f": Vec<{elem_ty}>" if elem_ty else ""
+            new = [syn("{ " + f"let it_s__{tag} = &{rt}; let mut it_o__{tag}{ty_ann} = Vec::new(); let mut {idx}: usize = {nt};", first.pos, first.ws),
+                   Tok("ident", "while", first.pos, " "), syn(f"{idx} < it_s__{tag}.len()", first.pos, " "),
+                   Tok("punct", "{", first.pos, " "), syn(bind, first.pos, " "), _stop(syn(f"it_o__{tag}.push(", first.pos, " "))] + body + \
+                  [syn(f"); {idx} += 1;", toks[hi].pos, " "), Tok("punct", "}", toks[hi].pos, " "), syn(f"it_o__{tag} " + "}", toks[hi].pos, " ")]
+            rep.rule("R30 slice.iter().skip(n).map(closure).collect() -> index loop starting at n")
         elif names[-2:] == ["iter", "any"]:
             ci = len(calls) - 2
             recv = recv_upto(ci)
@@ -1779,6 +1801,9 @@ class UnitBuilder:
                     toks = rule_R7(toks, k, self.rep, fnq)
             if ws.ensure_err:
                 toks = rule_R28(toks, ws.ensure_err, self.rep, fnq)
+            floops = [(m_, k_, t_) for fname, m_, k_, t_ in ws.loopify if fname == name]
+            if floops:
+                toks = rule_loopify(toks, floops, self.rep, fnq)
             fmaps = [k for fname, k in ws.optmaps if fname == name]
             if fmaps:
                 toks = rule_R29(toks, fmaps, self.rep, fnq)
